@@ -972,8 +972,11 @@ def _gets_full_unit(U, d, mkind):
         for k in range(d):
             dig = (t0 / XM.pprod(svec.t, k)) % sizes[k]
             node = PT.cosf(M.PI * (z3.ToReal(dig) / z3.ToReal(sizes[k] - 1)))
-            U.post(f'coordinate-{k}-of-flat-position-t-is-the-Chebyshev-node-of-digit-{k}-of-t (first index fastest)', hyp + dom,
-                   z3.And(Ig.t[t0][k] == dig, Xg.t[t0][k] == node), axioms=ff_AXGS, mode='ematch')
+            # two obligations instead of one conjunction: the digit is integer div / mod reasoning, the node real arithmetic on top of it;
+            # posted together they were the only obligation of the whole set that one z3 seed in five left open
+            U.post(f'index-{k}-of-flat-position-t-is-digit-{k}-of-t (first index fastest)', hyp + dom, Ig.t[t0][k] == dig, axioms=ff_AXGS, mode='ematch')
+            U.post(f'coordinate-{k}-of-flat-position-t-is-the-Chebyshev-node-of-digit-{k}-of-t (first index fastest)', hyp + dom + [Ig.t[t0][k] == dig],
+                   Xg.t[t0][k] == node, axioms=ff_AXGS, mode='ematch')
         U.post('no-grid-point-is-skipped: flat[t] = the-contraction-of-A-with-the-weights-T_l(scaled node)', hyp + dom, Zt.t[t0] == VALg(Xs, t0), axioms=ff_AXGS, mode='ematch')
         for k in range(d):
             U.post(f'the-scaled-coordinate-{k}-is-the-node-itself (the box is [-1, 1])', hyp + dom, Xs[t0][k] == Xg.t[t0][k], axioms=ff_AXGS, mode='ematch')
